@@ -398,6 +398,22 @@ Proof.
     set (h2 := read_dirs_history tr g' (cb_of cb) dist etc name sfx dl cm) in *.
     cbn [fst snd w_store w_tree w_g w_cb]. rewrite <- Ha, <- Hb.
     split; [reflexivity | split; [reflexivity | split; [exact Hc | intros _; exact Hp]]].
+  - (* WWriteTo *)
+    assert (FIN : forall (w1 w2 : world) (r : out),
+               w_store w1 = w_store w2 -> w_tree w1 = w_tree w2 -> w_cb w1 = w_cb w2 -> w_g w1 = g -> w_g w2 = g' ->
+               snd (fst (let '(w', o0) := (w1, r) in (w_g w', mkTS (w_store w') (w_tree w') (w_cb w'), o0))) =
+               snd (fst (let '(w', o0) := (w2, r) in (w_g w', mkTS (w_store w') (w_tree w') (w_cb w'), o0))) /\
+               snd (let '(w', o0) := (w1, r) in (w_g w', mkTS (w_store w') (w_tree w') (w_cb w'), o0)) =
+               snd (let '(w', o0) := (w2, r) in (w_g w', mkTS (w_store w') (w_tree w') (w_cb w'), o0)) /\
+               settings_eq (fst (fst (let '(w', o0) := (w1, r) in (w_g w', mkTS (w_store w') (w_tree w') (w_cb w'), o0))))
+                           (fst (fst (let '(w', o0) := (w2, r) in (w_g w', mkTS (w_store w') (w_tree w') (w_cb w'), o0)))) /\
+               (global_setter (WWriteTo o dir fname) = false ->
+                settings_eq (fst (fst (let '(w', o0) := (w1, r) in (w_g w', mkTS (w_store w') (w_tree w') (w_cb w'), o0)))) g)).
+    { intros w1 w2 r E1 E2 E3 E4 E5. cbn [fst snd]. rewrite E1, E2, E3, E4, E5.
+      repeat split; try reflexivity; try apply H. }
+    destruct (sget st o) as [kf|]; [|apply FIN; reflexivity].
+    destruct (tlookup tr (fs_resolve 8 tr (squeeze dir))) as [[c u gg|tg u gg|u gg]|]; try (apply FIN; reflexivity).
+    destruct (tlookup tr (fs_resolve 8 tr (squeeze (dir ++ 47 :: fname)))) as [[c2 u2 g2|tg2 u2 g2|u2 g2]|]; apply FIN; reflexivity.
   - (* WErrLoc *)
     discriminate Hr.
 Qed.
